@@ -6,6 +6,8 @@ sequences of depth 15.  After EVERY event the oracle below checks the clauses of
 objects: no callback raised; accept / reject semantics of the text boxes; documented bounds; text boxes show the
 model; plotted data equal a fresh Slurry's; unit displays; every section uses the edited slurry at its own diameter."""
 import concurrent.futures as cf
+import json
+import os
 import math
 import multiprocessing as mp
 import random
@@ -157,9 +159,20 @@ def check_event(seq, i, prev, rec, V):
     # -- sections use the edited slurry at their own diameter
     for sec in rec['sections']:
         sp = sec['params']
+        # D15 / D85 are not parameters but read-backs of the grading generated AT THE SECTION'S DIAMETER: the reference is a
+        # fresh Slurry at that diameter with the edited slurry's parameters and ratios (equal to the edited slurry's own
+        # D15 / D85 whenever D50 is above the pseudo-liquid limit of that diameter)
+        ref = dict(q)
+        fdx = sec.get('fresh_dx') or {}
+        if 'D15' in fdx:
+            ref['D15'], ref['D85'] = fdx['D15'], fdx['D85']
+        elif sec['kind'] == 'pipe':
+            S.count(None, 'section-fresh-error')
         for k in ('fluid', 'nu', 'rhol', 'rhos', 'rhoi', 'Cv', 'D50', 'D15', 'D85', 'epsilon'):
-            if not close(sp[k], q[k]):
-                V('C17:section:' + k, f'after {ev}: section {sec["name"]} uses {k}={sp[k]}, the edited slurry has {q[k]}', **where)
+            if k in ('D15', 'D85') and sec['kind'] == 'pipe' and 'D15' not in fdx:
+                continue
+            if not close(sp[k], ref[k]):
+                V('C17:section:' + k, f'after {ev}: section {sec["name"]} uses {k}={sp[k]}, the edited slurry at that diameter has {ref[k]}', **where)
                 break
         if sec['kind'] == 'pipe' and not close(sp['Dp'], sec['diameter'], 1e-12):
             V('C17:section:Dp', f'after {ev}: section {sec["name"]} (diameter {sec["diameter"]}) uses a slurry at Dp={sp["Dp"]}', **where)
@@ -232,6 +245,8 @@ def main():
     keys = vs.setup_keys()
     rng = random.Random(seed() * 7919 + 17)
     seqs = sequences(rng, keys, S.budget >= 600, 150, 60 if S.budget >= 600 else 6)
+    if os.environ.get('VERIF_C17_SEQS'):       # replay: only the recorded sequences
+        seqs = [tuple(tuple(e) for e in q) for q in json.loads(os.environ['VERIF_C17_SEQS'])]
     ctx = mp.get_context('fork')
     with cf.ProcessPoolExecutor(max_workers=16, mp_context=ctx) as ex:
         for seq, recs in ex.map(run_one, seqs, chunksize=4):
